@@ -166,8 +166,16 @@ def run_check(mod, pid, a, t0):
     reported = set()
     exit_code = 0
     nrep = 0
+    sigf = getattr(mod, "signature", lambda ff: str((ff["spec_fail"][0].get("info") or {}).get("what")))
+    t_verdict = time.time()
     for f in spec_fails[:40]:
         scn = f["scn"]
+        # one replay per kind of failure: do not spend time shrinking a second instance of a reported kind
+        # (unless it may be a listed known finding, which is decided on the shrunk scenario)
+        if not known and sigf(f) in reported:
+            continue
+        if time.time() - t_verdict > 240 and reported:
+            break
         if f.get("no_shrink"):
             small = scn
         else:
@@ -181,7 +189,7 @@ def run_check(mod, pid, a, t0):
             if line not in known_lines:
                 known_lines.append(line)
             continue
-        sig = getattr(mod, "signature", lambda ff: str((ff["spec_fail"][0].get("info") or {}).get("what")))(f)
+        sig = sigf(f)
         if sig in reported:
             continue
         reported.add(sig)
